@@ -25,6 +25,7 @@ type c20Case struct {
 	RecoverNs int64  `json:"recover_ns"`
 	Mock      bool   `json:"mock"`
 	Outs      string `json:"outs"`    // one of O E P per call
+	Ctxs      string `json:"ctxs"`    // per call: b (or absent) = background context, c = already cancelled, d = deadline already passed
 	GapsUs    []int  `json:"gaps_us"` // optional sleep before call k
 	// concurrent scenario: steps ["start",k,"O|E|P"], ["release",k], ["sleep",us], ["probe","O|E|P"]
 	Script [][]interface{} `json:"script,omitempty"`
@@ -116,7 +117,18 @@ func c20Run(line []byte, out *json.Encoder) error {
 			before := invocations
 			call := c20Call{}
 			call.B = time.Now().UnixNano()
-			res, err := client.Invoke("f", nil)
+			cctx, cancel := context.Background(), context.CancelFunc(func() {})
+			if k < len(c.Ctxs) {
+				switch c.Ctxs[k] {
+				case 'c':
+					cctx, cancel = context.WithCancel(context.Background())
+					cancel()
+				case 'd':
+					cctx, cancel = context.WithDeadline(context.Background(), time.Now().Add(-time.Second))
+				}
+			}
+			res, err := client.InvokeContext(cctx, "f", nil)
+			cancel()
 			call.A = time.Now().UnixNano()
 			call.Inv = invocations - before
 			switch {
